@@ -27,8 +27,35 @@ let s_event = function
   | EvRet (n, e) -> Printf.sprintf "(send %d ret%s)" (int_of_nat n) (s_trail e)
   | EvApply (n, e) -> Printf.sprintf "(apply %d%s)" (int_of_nat n) (s_trail e)
 
+let hop_of_sexp (x : Sexp.t) : hop =
+  let n y = nat_of_int (Sexp.int y) in
+  match x with
+  | Sexp.L [Sexp.A "new"; i; s] -> HNew (n i, (match Sexp.atom s with "-" -> None | a -> Some (nat_of_int (int_of_string a))))
+  | Sexp.L [Sexp.A "clone"; i; j] -> HClone (n i, n j)
+  | Sexp.L [Sexp.A "pushed"; i; j; t] -> HPushed (n i, n j, n t)
+  | Sexp.L [Sexp.A "push"; i; t] -> HPush (n i, n t)
+  | Sexp.L [Sexp.A "locked"; i; b] -> HLocked (n i, Sexp.atom b = "T")
+  | Sexp.L [Sexp.A "nosink"; i; j] -> HNoSink (n i, n j)
+  | Sexp.L [Sexp.A "nolocal"; i; j] -> HNoLocal (n i, n j)
+  | Sexp.L [Sexp.A "takesink"; i; k] -> HTakeSink (n i, n k)
+  | Sexp.L [Sexp.A "replsink"; i; k] -> HReplSink (n i, n k)
+  | Sexp.L [Sexp.A "takelocal"; i; l] -> HTakeLocal (n i, n l)
+  | Sexp.L [Sexp.A "repllocal"; i; l] -> HReplLocal (n i, n l)
+  | Sexp.L [Sexp.A "send"; i; m] -> HSend (n i, n m)
+  | Sexp.L [Sexp.A "apply"; i; m] -> HApply (n i, n m)
+  | _ -> failwith "hctx op"
+
+let s_hevent = function
+  | HvSink (n, sk, e) -> Printf.sprintf "(send %d sink%d%s)" (int_of_nat n) (int_of_nat sk) (s_trail e)
+  | HvRet (n, e) -> Printf.sprintf "(send %d ret%s)" (int_of_nat n) (s_trail e)
+  | HvApply (n, e) -> Printf.sprintf "(apply %d%s)" (int_of_nat n) (s_trail e)
+
 let run_line (line : string) : string option =
   match Sexp.parse line with
+  | Sexp.L (Sexp.A "hctx-case" :: Sexp.A id :: fields) ->
+    let f k = Sexp.field fields k in
+    let evs = hrun hinit (List.map hop_of_sexp (f "ops")) in
+    Some ("(" ^ id ^ String.concat "" (List.map (fun e -> " " ^ s_hevent e) evs) ^ ")")
   | Sexp.L (Sexp.A "ctx-case" :: Sexp.A id :: fields) ->
     let f k = Sexp.field fields k in
     let sink = Sexp.atom (List.hd (f "sink")) = "1" in
